@@ -1,11 +1,14 @@
 package props
 
 import (
+	"crypto/rand"
 	"fmt"
+	"math"
 	"reflect"
 	"sort"
 	"strings"
 	"testing"
+	"verif/harness/internal/tape"
 
 	"go.1password.io/spg"
 	"pgregory.net/rapid"
@@ -54,6 +57,9 @@ func c10ShippedRun(c c10Shipped) error {
 		return fmt.Errorf("NewWordList(%s[%d:%d]).Size() = %d, want %d", c.List, c.Lo, hi, wl.Size(), len(kept))
 	}
 	if hi-c.Lo <= 600 {
+		if int(wl.Size()) != len(kept) {
+			return fmt.Errorf("NewWordList(%s[%d:%d]): Size() = %d, want %d kept words", c.List, c.Lo, hi, wl.Size(), len(kept))
+		}
 		got, err := readKept(wl)
 		if err != nil {
 			return err
@@ -66,39 +72,53 @@ func c10ShippedRun(c c10Shipped) error {
 	return nil
 }
 
-// readKept reads the kept set out of a WordList by generating every
-// one-word password (forced index j for j < Size()).
+// readKept reads the set of words a WordList can yield without any assumption
+// about how Generate draws: one-word passwords from N pseudo-random source
+// streams, N = S*(ln S + 30) for a list of size S, so that (coupon collector)
+// a word the list holds is missed with probability below e^-30. It returns the
+// distinct atoms, sorted; the callers compare Size() separately.
 func readKept(wl *spg.WordList) ([]string, error) {
 	r := spg.NewWLRecipe(1, wl)
-	n := wl.Size()
-	var out []string
-	for j := uint32(0); j < n; j++ {
-		// every draw is steered to alternative j (mod its bound), so the word
-		// draw - whichever of the announced draws it is - selects entry j
-		jj := j
-		o := callForced(nil, func(int, uint32) uint32 { return jj }, 5, r.Generate)
-		if e := o.S.IndexLevelOK(); e != nil {
-			return nil, &ev.Inc{Why: e.Error()}
-		}
-		if o.Panic != nil || o.Err != nil || o.Pw == nil {
-			return nil, fmt.Errorf("one-word generation at index %d failed: panic=%v err=%v", j, o.Panic, o.Err)
-		}
-		found := false
-		for _, d := range o.S.Draws {
-			if d.Bound == n {
-				found = true
+	n := int(wl.Size())
+	if n <= 0 {
+		return nil, fmt.Errorf("Size() = %d", n)
+	}
+	N := int(float64(n)*(math.Log(float64(n))+30)) + 1
+	tp := &tape.Tape{TailKey: ev.Mix64(uint64(n), 0x10ad) | 1, Cap: 1 << 40}
+	oldR, oldO := rand.Reader, spg.VerifDrawObserver
+	rand.Reader, spg.VerifDrawObserver = tp, nil
+	defer func() { rand.Reader, spg.VerifDrawObserver = oldR, oldO }()
+	seen := map[string]bool{}
+	var fail error
+	func() {
+		defer func() {
+			if rec := recover(); rec != nil {
+				fail = fmt.Errorf("one-word generation panicked: %v", rec)
 			}
+		}()
+		for i := 0; i < N; i++ {
+			p, err := r.Generate()
+			if err != nil || p == nil {
+				fail = fmt.Errorf("one-word generation failed: %v", err)
+				return
+			}
+			at := p.Tokens().Atoms()
+			if len(at) != 1 {
+				fail = &ev.Skip{Why: "a one-word password does not have one atom (C05)"}
+				return
+			}
+			seen[at[0]] = true
 		}
-		if !found && n > 1 { // a single entry needs no draw
-			return nil, fmt.Errorf("no draw of a one-word generation has the bound Size() = %d (draws %v)", n, o.S.Draws)
-		}
-		at := o.Pw.Tokens().Atoms()
-		if len(at) != 1 {
-			return nil, fmt.Errorf("one-word password has %d atoms (index %d)", len(at), j)
-		}
-		out = append(out, at[0])
+	}()
+	if fail != nil {
+		return nil, fail
+	}
+	out := make([]string, 0, len(seen))
+	for w := range seen {
+		out = append(out, w)
 	}
 	sort.Strings(out)
+	ev.Leaves(int64(N))
 	return out, nil
 }
 
@@ -295,6 +315,9 @@ func TestC10(t *testing.T) {
 		got, err := readKept(wl)
 		if err != nil {
 			return err
+		}
+		if len(got) != len(kept) {
+			return fmt.Errorf("list of %d entries with twins and duplicates far apart: it yields %d distinct words, want %d", n, len(got), len(kept))
 		}
 		for i := range kept {
 			if got[i] != kept[i] {
